@@ -183,10 +183,10 @@ def parked_scenario(bins, idx, spec, rng):
 
 
 def queued_scenario(bins, idx, spec, rng):
-    """The holder is released 3 s after a contender has reached lock acquisition (bind_timeout_ms is set to 4000): a
+    """The holder is released 3 s after a contender has reached lock acquisition (bind_timeout_ms is set to 12000, so that the release falls well inside any fraction of it): a
     contender that waits for the lock instead of failing at once gets it and is exposed. The margins are seconds, not
     milliseconds, so that no scheduling hiccup of a correct contender can be mistaken for waiting."""
-    fx = new_fixture(bins, bind_timeout_ms=4000)
+    fx = new_fixture(bins, bind_timeout_ms=12000)
     try:
         release = os.path.join(fx.root, "release")
         holder = Proc(fx, 1, spec["holder"], park=release)
